@@ -266,6 +266,9 @@ func c10(r *ev.Result, tier string) {
 	r.Evaluations += nz
 	r.Distinct += nz
 	r.Set("zoned_client_address_cases", nz)
+	/* The last seam: from the operator channel to the terminal, through
+	the real Shell. */
+	runTermSeam(r, "c10", 0, "c10term")
 	r.Sample(6, c10Case{Position: "file-path", Text: "%20%25s"})
 	r.Sample(6, c10Case{Position: "c2-param", Text: "%25s%25d"})
 	r.Sample(6, c10Case{Position: "input-id-refused", Text: "%25!"})
